@@ -115,9 +115,9 @@ func oracleC16Single(g *gen, ctx *engineCtx, cfg extCfg) {
 				return &gtfsrt.TripUpdate_StopTimeEvent{}
 			case 2:
 				return &gtfsrt.TripUpdate_StopTimeEvent{Time: ptr(int64(0))}
-			case 3:
+			case 3, 4:
 				// the comparison with the feed timestamp is one of integers, over the whole int64 range
-				return &gtfsrt.TripUpdate_StopTimeEvent{Time: ptr(g.pick64([]int64{math.MinInt64, math.MinInt64 + 1000, math.MinInt64 + int64(ts), math.MinInt64 + int64(ts) + 1,
+				return &gtfsrt.TripUpdate_StopTimeEvent{Time: ptr(g.pick64([]int64{math.MinInt64, math.MinInt64 + 1000, math.MinInt64 + int64(ts), math.MinInt64 + int64(ts) + 1, math.MinInt64 + 1, math.MinInt64 + int64(ts) - 1, math.MinInt64 + int64(ts)/2,
 					math.MaxInt64, math.MaxInt64 - int64(ts), -1, 1, -int64(ts), math.MinInt32, math.MaxInt32, 1 << 32, int64(ts) - (1 << 32), int64(ts) + (1 << 32)}))}
 			default:
 				return &gtfsrt.TripUpdate_StopTimeEvent{Time: ptr(int64(ts) + int64(g.r.Intn(3)) - 1)}
